@@ -60,48 +60,48 @@ Qed.
 
 (* ---------- the link loop writes only at the key it handles ---------- *)
 Section Link.
-Variables (vr : variant) (w : world) (bf : kmap (ty * aval * option aval)) (be : kmap str) (cfg : kmap val).
+Variables (f : facts) (w : world) (bf : kmap (ty * aval * option aval)) (be : kmap str) (cfg : kmap val).
 
 Lemma link_step_other s k k' : k <> k' ->
-  lookup k (ov (link_step vr w bf be cfg s k')) = lookup k (ov s) /\
-  lookup k (dfl (link_step vr w bf be cfg s k')) = lookup k (dfl s).
+  lookup k (ov (link_step f w bf be cfg s k')) = lookup k (ov s) /\
+  lookup k (dfl (link_step f w bf be cfg s k')) = lookup k (dfl s).
 Proof.
   intros Hne. unfold link_step.
-  destruct (find_flag w bf be (flagkey vr (w_prefix w) k') false); simpl.
+  destruct (find_flag f w bf be (flagkey f (w_prefix w) k') false); simpl.
   - rewrite str_eqb_neq; auto.
-  - destruct (find_flag w bf be (flagkey vr (w_prefix w) k') true); simpl; auto.
-    destruct (is_empty v); auto.
-    destruct (is_empty_o _); simpl; rewrite ?str_eqb_neq; auto.
+  - destruct (find_flag f w bf be (flagkey f (w_prefix w) k') true); simpl; auto.
+    destruct (l_guard_default_nonempty (lf f) && is_empty v); auto.
+    destruct (if l_guard_current_empty (lf f) then _ else true); simpl; rewrite ?str_eqb_neq; auto.
 Qed.
 
 Lemma link_fold_other keys : forall s k, ~ In k keys ->
-  lookup k (ov (fold_left (link_step vr w bf be cfg) keys s)) = lookup k (ov s) /\
-  lookup k (dfl (fold_left (link_step vr w bf be cfg) keys s)) = lookup k (dfl s).
+  lookup k (ov (fold_left (link_step f w bf be cfg) keys s)) = lookup k (ov s) /\
+  lookup k (dfl (fold_left (link_step f w bf be cfg) keys s)) = lookup k (dfl s).
 Proof.
   induction keys as [|k' keys IH]; intros s k Hn; simpl; auto.
-  destruct (IH (link_step vr w bf be cfg s k') k) as [A B]; [simpl in Hn; tauto|].
+  destruct (IH (link_step f w bf be cfg s k') k) as [A B]; [simpl in Hn; tauto|].
   destruct (link_step_other s k k') as [C D]; [simpl in Hn; intros ->; tauto|].
   rewrite A, B, C, D. auto.
 Qed.
 
 Lemma find_key_ext s s' k :
   lookup k (ov s) = lookup k (ov s') -> lookup k (dfl s) = lookup k (dfl s') ->
-  find_key w cfg s k = find_key w cfg s' k.
+  find_key f w cfg s k = find_key f w cfg s' k.
 Proof. unfold find_key. intros -> ->. reflexivity. Qed.
 
 (* the value Unmarshal finds for k after the whole loop is the one found right after k's own iteration,
    started from a session that has nothing recorded for k *)
 Lemma link_at_key keys k : NoDup keys -> In k keys ->
   exists s1, lookup k (ov s1) = None /\ lookup k (dfl s1) = None /\
-    find_key w cfg (fold_left (link_step vr w bf be cfg) keys (mkS [] [])) k =
-    find_key w cfg (link_step vr w bf be cfg s1 k) k.
+    find_key f w cfg (fold_left (link_step f w bf be cfg) keys (mkS [] [])) k =
+    find_key f w cfg (link_step f w bf be cfg s1 k) k.
 Proof.
   intros ND HI. destruct (in_split _ _ HI) as [l1 [l2 ->]].
   pose proof (NoDup_remove_2 _ _ _ ND) as Hn.
   assert (Hn1 : ~ In k l1) by (intros H; apply Hn; apply in_or_app; auto).
   assert (Hn2 : ~ In k l2) by (intros H; apply Hn; apply in_or_app; auto).
   rewrite fold_left_app. simpl.
-  exists (fold_left (link_step vr w bf be cfg) l1 (mkS [] [])).
+  exists (fold_left (link_step f w bf be cfg) l1 (mkS [] [])).
   destruct (link_fold_other l1 (mkS [] []) k Hn1) as [A B]. simpl in A, B.
   split; auto. split; auto.
   apply find_key_ext; apply link_fold_other; auto.
@@ -109,10 +109,10 @@ Qed.
 End Link.
 
 (* ---------- bindings ---------- *)
-Lemma bound_same_keys vr w fk :
-  match lookup fk (bound_flags w) with
-  | Some _ => exists n, lookup fk (bound_envs vr w) = Some n
-  | None => lookup fk (bound_envs vr w) = None
+Lemma bound_same_keys f w fk :
+  match lookup fk (bound_flags f w) with
+  | Some _ => exists n, lookup fk (bound_envs f w) = Some n
+  | None => lookup fk (bound_envs f w) = None
   end.
 Proof.
   unfold bound_flags, bound_envs. induction (w_flags w) as [|[[[ev t] d] s] l IH]; simpl; auto.
@@ -123,12 +123,12 @@ Qed.
 (* [spec_val]: explicitly set flag > environment variable > configuration file > supplied default;
    the default of a bound flag that was NOT set only fills in when none of the environment / file / default
    gives a non-empty value (the repository's documented refinement, LoadFromViper's doc comment). *)
-Definition spec_val (vr : variant) (w : world) (k : str) (d : aval) : val :=
-  let fl := lookup (flagkey vr (w_prefix w) k) (bound_flags w) in
+Definition spec_val (f : facts) (w : world) (k : str) (d : aval) : val :=
+  let fl := lookup (flagkey f (w_prefix w) k) (bound_flags f w) in
   match fl with
   | Some (t, _, Some a) => rep_flag t a
   | _ =>
-    match getenv w (autoenv (w_prefix w) k) with
+    match autoget f w k with
     | Some v => v
     | None =>
       let cv := match lookup k (file_cfg w) with Some v => v | None => rep_default d end in
@@ -143,24 +143,25 @@ Definition spec_val (vr : variant) (w : world) (k : str) (d : aval) : val :=
    no shadowing by a variable / flag named like an enclosing path, nothing set under the private flag-key name space,
    and the variable bound by BindFlagToEnv is the one AutomaticEnv consults (proved from the spelling in Proofs_names:
    bound_env_is_auto_env). *)
-Record adequate (vr : variant) (w : world) (k : str) : Prop := {
-  ad_shadow_k : env_shadow w k = false;
-  ad_shadow_fk : env_shadow w (flagkey vr (w_prefix w) k) = false;
-  ad_flat_bf : flat_shadow (flagkey vr (w_prefix w) k) (map fst (bound_flags w)) = false;
-  ad_flat_be : flat_shadow (flagkey vr (w_prefix w) k) (map fst (bound_envs vr w)) = false;
-  ad_private : getenv w (autoenv (w_prefix w) (flagkey vr (w_prefix w) k)) = None;
-  ad_bound : forall n, lookup (flagkey vr (w_prefix w) k) (bound_envs vr w) = Some n -> n = autoenv (w_prefix w) k;
+Record adequate (f : facts) (w : world) (k : str) : Prop := {
+  ad_shadow_k : env_shadow f w k = false;
+  ad_shadow_fk : env_shadow f w (flagkey f (w_prefix w) k) = false;
+  ad_flat_bf : flat_shadow (flagkey f (w_prefix w) k) (map fst (bound_flags f w)) = false;
+  ad_flat_be : flat_shadow (flagkey f (w_prefix w) k) (map fst (bound_envs f w)) = false;
+  ad_private : autoget f w (flagkey f (w_prefix w) k) = None;
+  ad_bound : forall n, lookup (flagkey f (w_prefix w) k) (bound_envs f w) = Some n -> getenv f w n = autoget f w k;
 }.
 
-Lemma step_at_key vr w cfg s1 k cv :
-  adequate vr w k ->
+Lemma step_at_key f w cfg s1 k cv :
+  l_guard_default_nonempty (lf f) = true -> l_guard_current_empty (lf f) = true ->
+  adequate f w k ->
   lookup k (ov s1) = None -> lookup k (dfl s1) = None ->
   lookup k cfg = Some cv ->
-  find_key w cfg (link_step vr w (bound_flags w) (bound_envs vr w) cfg s1 k) k =
-  Some (let fl := lookup (flagkey vr (w_prefix w) k) (bound_flags w) in
+  find_key f w cfg (link_step f w (bound_flags f w) (bound_envs f w) cfg s1 k) k =
+  Some (let fl := lookup (flagkey f (w_prefix w) k) (bound_flags f w) in
         match fl with
         | Some (t, _, Some a) => rep_flag t a
-        | _ => match getenv w (autoenv (w_prefix w) k) with
+        | _ => match autoget f w k with
                | Some v => v
                | None => match fl with
                          | Some (t, fd, None) => if negb (is_empty (rep_flag t fd)) && is_empty cv then rep_flag t fd else cv
@@ -169,26 +170,26 @@ Lemma step_at_key vr w cfg s1 k cv :
                end
         end).
 Proof.
-  intros [A1 A2 A3 A4 A5 A6] Ho Hd Hc. cbv zeta.
-  pose proof (bound_same_keys vr w (flagkey vr (w_prefix w) k)) as BK.
-  unfold link_step, find_flag. rewrite A3, A5, A2, A4.
-  destruct (lookup (flagkey vr (w_prefix w) k) (bound_flags w)) as [[[t fd] [a|]]|] eqn:FL.
+  intros G1 G2 [A1 A2 A3 A4 A5 A6] Ho Hd Hc. cbv zeta.
+  pose proof (bound_same_keys f w (flagkey f (w_prefix w) k)) as BK.
+  unfold link_step, find_flag. rewrite A3, A5, A2, A4, G1, G2.
+  destruct (lookup (flagkey f (w_prefix w) k) (bound_flags f w)) as [[[t fd] [a|]]|] eqn:FL.
   - (* flag explicitly set *)
     unfold find_key; simpl. now rewrite str_eqb_refl.
   - (* bound, not set *)
     destruct BK as [n Hn]. rewrite Hn. rewrite (A6 n Hn).
-    destruct (getenv w (autoenv (w_prefix w) k)) as [v|] eqn:EV.
+    destruct (autoget f w k) as [v|] eqn:EV.
     + unfold find_key; simpl. now rewrite str_eqb_refl.
     + destruct (is_empty (rep_flag t fd)) eqn:EF; simpl.
       * unfold find_key. now rewrite Ho, EV, A1, Hc.
-      * assert (FK : find_key w cfg (set_dfl k (rep_flag t fd) s1) k = Some cv).
+      * assert (FK : find_key f w cfg (set_dfl k (rep_flag t fd) s1) k = Some cv).
         { unfold find_key; simpl. now rewrite Ho, EV, A1, Hc. }
         rewrite FK. simpl. destruct (is_empty cv) eqn:EC.
         -- unfold find_key; simpl. now rewrite str_eqb_refl.
         -- exact FK.
   - (* no flag bound to this key *)
     rewrite BK.
-    destruct (getenv w (autoenv (w_prefix w) k)) as [v|] eqn:EV; unfold find_key; now rewrite Ho, EV, ?A1, ?Hc.
+    destruct (autoget f w k) as [v|] eqn:EV; unfold find_key; now rewrite Ho, EV, ?A1, ?Hc.
 Qed.
 
 Lemma leaves_cfg_lookup sc k t d :
@@ -201,13 +202,22 @@ Proof.
 Qed.
 
 (* MAIN: for the repaired code (flags linked after the file is merged) every leaf receives the value [spec_val] names *)
-Lemma load_precedence_l vr w sc k t d :
-  v_after_file vr = true ->
+(* what load_precedence needs of LoadFromEnvironment / linkFlagKeysToStructureKeys: the flags are linked after the file
+   has been merged, the file is merged after the defaults, flag keys are skipped, and both emptiness guards are there *)
+Definition link_facts_ok (f : facts) : bool :=
+  after_file f && defaults_first f && steps_sane f && l_link_skips_flagkeys (lf f)
+  && l_guard_default_nonempty (lf f) && l_guard_current_empty (lf f).
+
+Lemma load_precedence_l f w sc k t d :
+  link_facts_ok f = true ->
   NoDup (map fst (leaves [] sc)) -> In (k, (t, d)) (leaves [] sc) ->
-  is_flagkey k = false -> adequate vr w k ->
-  final_val vr w sc k = Some (spec_val vr w k d).
+  is_flagkey f k = false -> adequate f w k ->
+  final_val f w sc k = Some (spec_val f w k d).
 Proof.
-  intros AF ND HI NF AD. unfold final_val, prepared, link. rewrite AF. cbv zeta.
+  intros OK ND HI NF AD. unfold link_facts_ok in OK.
+  repeat (apply andb_prop in OK; let H := fresh "C" in destruct OK as [OK H]).
+  rename OK into AF.
+  unfold final_val, prepared, link, link_keys. rewrite AF, C3, C1. cbv zeta.
   set (keys := filter _ _).
   assert (NDk : NoDup keys).
   { unfold keys. apply NoDup_filter. apply (dedup_spec _ []). }
@@ -215,44 +225,44 @@ Proof.
   { unfold keys. apply filter_In. split; [|now rewrite NF].
     apply (dedup_spec _ []). split; [|tauto]. apply in_or_app. left.
     apply in_map_iff. exists (k, (t, d)). auto. }
-  destruct (link_at_key vr w (bound_flags w) (bound_envs vr w) (file_cfg w ++ defaults_cfg sc) keys k NDk Ik)
+  destruct (link_at_key f w (bound_flags f w) (bound_envs f w) (file_cfg w ++ defaults_cfg sc) keys k NDk Ik)
     as [s1 [Ho [Hd E]]].
   rewrite E.
   set (cv := match lookup k (file_cfg w) with Some v => v | None => rep_default d end).
   assert (Hc : lookup k (file_cfg w ++ defaults_cfg sc) = Some cv).
   { rewrite lookup_app. unfold cv. destruct (lookup k (file_cfg w)); auto. eapply leaves_cfg_lookup; eauto. }
-  rewrite (step_at_key vr w _ s1 k cv AD Ho Hd Hc). reflexivity.
+  rewrite (step_at_key f w _ s1 k cv C0 C AD Ho Hd Hc). reflexivity.
 Qed.
 
 (* the four clauses of the property, read off [spec_val] *)
-Lemma spec_flag_wins vr w k d t fd a :
-  lookup (flagkey vr (w_prefix w) k) (bound_flags w) = Some (t, fd, Some a) -> spec_val vr w k d = rep_flag t a.
+Lemma spec_flag_wins f w k d t fd a :
+  lookup (flagkey f (w_prefix w) k) (bound_flags f w) = Some (t, fd, Some a) -> spec_val f w k d = rep_flag t a.
 Proof. unfold spec_val. now intros ->. Qed.
 
-Lemma spec_env_next vr w k d v :
-  (forall t fd a, lookup (flagkey vr (w_prefix w) k) (bound_flags w) <> Some (t, fd, Some a)) ->
-  getenv w (autoenv (w_prefix w) k) = Some v -> spec_val vr w k d = v.
+Lemma spec_env_next f w k d v :
+  (forall t fd a, lookup (flagkey f (w_prefix w) k) (bound_flags f w) <> Some (t, fd, Some a)) ->
+  autoget f w k = Some v -> spec_val f w k d = v.
 Proof.
-  unfold spec_val. intros H ->. destruct (lookup _ (bound_flags w)) as [[[t fd] [a|]]|] eqn:E; auto.
+  unfold spec_val. intros H ->. destruct (lookup _ (bound_flags f w)) as [[[t fd] [a|]]|] eqn:E; auto.
   exfalso. eapply H; eauto.
 Qed.
 
-Lemma spec_file_next vr w k d v :
-  lookup (flagkey vr (w_prefix w) k) (bound_flags w) = None ->
-  getenv w (autoenv (w_prefix w) k) = None ->
-  lookup k (file_cfg w) = Some v -> spec_val vr w k d = v.
+Lemma spec_file_next f w k d v :
+  lookup (flagkey f (w_prefix w) k) (bound_flags f w) = None ->
+  autoget f w k = None ->
+  lookup k (file_cfg w) = Some v -> spec_val f w k d = v.
 Proof. unfold spec_val. now intros -> -> ->. Qed.
 
-Lemma spec_default_last vr w k d :
-  lookup (flagkey vr (w_prefix w) k) (bound_flags w) = None ->
-  getenv w (autoenv (w_prefix w) k) = None ->
-  lookup k (file_cfg w) = None -> spec_val vr w k d = rep_default d.
+Lemma spec_default_last f w k d :
+  lookup (flagkey f (w_prefix w) k) (bound_flags f w) = None ->
+  autoget f w k = None ->
+  lookup k (file_cfg w) = None -> spec_val f w k d = rep_default d.
 Proof. unfold spec_val. now intros -> -> ->. Qed.
 
 (* with a bound flag that is not set: same order, and the flag's default never outranks a non-empty value *)
-Lemma spec_unset_flag_does_not_outrank vr w k d t fd :
-  lookup (flagkey vr (w_prefix w) k) (bound_flags w) = Some (t, fd, None) ->
-  getenv w (autoenv (w_prefix w) k) = None ->
+Lemma spec_unset_flag_does_not_outrank f w k d t fd :
+  lookup (flagkey f (w_prefix w) k) (bound_flags f w) = Some (t, fd, None) ->
+  autoget f w k = None ->
   let cv := match lookup k (file_cfg w) with Some v => v | None => rep_default d end in
-  is_empty cv = false -> spec_val vr w k d = cv.
+  is_empty cv = false -> spec_val f w k d = cv.
 Proof. intros H1 H2. cbv zeta. intros H. unfold spec_val. rewrite H1, H2, H. now rewrite andb_false_r. Qed.
